@@ -8,8 +8,12 @@ def build(repo, tier, seed):
     v2, s2, u2 = effects_c16.computation(repo)
     v3, s3, u3 = effects_c16.logged(repo)
     t_syn, t_und = dataset_tower.tower_obligations(repo)
-    from . import chained_effect
+    from . import chained_effect, runtime_c14
     v4, u4 = chained_effect.build(repo)
+    # the context-manager switches are runtimes DERIVED from the enclosing one: nested switches compose only because derive keeps the parent's handlers
+    v5, u5 = runtime_c14.build(repo)
+    v4 = v4 + [x for x in v5 if "derive" in x.name or "handle" in x.name or "run" in x.name]
+    u4 = u4 + u5
     v2 = v2 + v4
     u2 = u2 + u4
     syn = syn + s2 + s3 + effects_c16.disabled_contexts(repo) + effects_c16.nocache(repo) + t_syn
